@@ -19,6 +19,7 @@ import (
 	"math"
 	"strings"
 
+	"github.com/EliCDavis/polyform/formats/ply"
 	"github.com/EliCDavis/polyform/formats/splat"
 	"github.com/EliCDavis/polyform/formats/spz"
 	"github.com/EliCDavis/polyform/modeling"
@@ -288,6 +289,31 @@ func runC15(c *Ctx) {
 			}
 			back := c15readBack(m)
 			c.Emit("c15.holds.step_bounds", strings.TrimRight(fmt.Sprintf("%d %s %d %d %s", n, c15flatAll(recs, true), flag, len(back), c15flatAll(back, false)), " "), "true")
+		}
+
+		// --- PLY splat export: SplatPly.Write + ply.ReadMesh at float32 precision ------------------------
+		if n > 0 {
+			ans := Guard(func() string {
+				pb := &bytes.Buffer{}
+				if err := (ply.SplatPly{Mesh: cloud}).Write(pb); err != nil {
+					return "write-err"
+				}
+				back, err := ply.ReadMesh(bytes.NewReader(pb.Bytes()))
+				if err != nil {
+					return "read-err"
+				}
+				for _, a := range []string{modeling.PositionAttribute, modeling.ScaleAttribute, modeling.FDCAttribute} {
+					if !back.HasFloat3Attribute(a) {
+						return "missing-" + a
+					}
+				}
+				if !back.HasFloat1Attribute(modeling.OpacityAttribute) || !back.HasFloat4Attribute(modeling.RotationAttribute) {
+					return "missing-attribute"
+				}
+				rb := c15readBack(*back)
+				return fmt.Sprintf("%d %s", len(rb), c15flatAll(rb, false))
+			})
+			c.Emit("c15.holds.splatply", strings.TrimSpace(fmt.Sprintf("%d %s %s", n, c15flatAll(recs, false), ans)), "true")
 		}
 
 		// --- guards of Write ------------------------------------------------------------------
